@@ -53,7 +53,7 @@ Proof.
   - destruct (wfail (set_txid s v')).
     + pose proof (finish_lc (set_wctl (set_txid s v') false 0) r (RErr ReIo)) as C. destruct (finish _ r _) as [s' o].
       apply lc_cons_silent; [reflexivity|]. apply lc_cons_silent; [reflexivity|exact C].
-    + destruct (wdelay (set_txid s v') =? 0); lc_tac.
+    + destruct (write_now (set_txid s v')); lc_tac.
   - pose proof (finish_lc (set_txid s v') r (RErr ReBadRequest)) as C. destruct (finish _ r _) as [s' o]. apply lc_cons_silent; [reflexivity|exact C].
 Qed.
 Lemma take_lc s c : lc (take s c).
@@ -81,10 +81,13 @@ Proof.
   - destruct (reading (ph s)); [|lc_tac]. unfold on_read_error. destruct (ph s); try lc_tac; [|apply finish_lc]. cbn [from_request_err]. apply end_session_lc.
   - destruct (reading (ph s)); [|lc_tac]. unfold on_read_error. destruct (ph s); try lc_tac; [|apply finish_lc]. cbn [from_request_err]. apply end_session_lc.
   - destruct (ph s); try lc_tac.
-    + destruct (fire cfg until <=? now s); lc_tac.
+    + destruct (Nat.eqb (wpark s) 0 && (fire cfg until <=? now s)); [unfold written; lc_tac|].
+      destruct (fire cfg (wdl s) <=? now s); [apply finish_lc|lc_tac].
     + destruct (fire cfg deadline <=? now s); [apply finish_lc|lc_tac].
     + destruct (fire cfg until <=? now s); [apply loop_top_lc|lc_tac].
   - destruct (ph s); try apply crash_lc. lc_tac.
+  - destruct (wpark s) as [|n]; [lc_tac|]. cbn [ph set_wpark]. destruct (ph s); try lc_tac.
+    destruct (Nat.eqb n 0 && _); [unfold written|]; lc_tac.
 Qed.
 End LC.
 
